@@ -1,6 +1,7 @@
 import QuantemModel.Core.Proto
 import QuantemModel.Model.DirectPtycho
 import QuantemModel.Model.DirectKernel
+import QuantemModel.Model.DirectHalfsets
 open Lean QuantemModel QuantemModel.Proto QuantemModel.DirectPtycho
 
 namespace DrvC04
@@ -97,6 +98,18 @@ def step (st : Unit) (j : Json) : Unit × Json :=
         pure (match bfContext cols cm sub with
           | .ok b => okJson (Json.mkObj [("i", natsToJson b.indsI), ("j", natsToJson b.indsJ),
                                         ("n", Json.num (JsonNumber.fromNat b.numBf)), ("map", natsToJson b.mapping)])
+          | .error e => errJson (errName e))
+    | "halfsets" =>
+        -- `_make_checkerboard_bf_masks(gpts, bf_mask)` + the two `_return_bf_context` calls of `_reconstruct_with_halfsets`
+        let gr ← natField j "gr"
+        let gc ← natField j "gc"
+        let m ← boolList (← field j "mask")
+        let h := halfsetMasks gr gc m
+        let ctxJson := fun (b : BFContext) => Json.mkObj [("i", natsToJson b.indsI), ("j", natsToJson b.indsJ),
+            ("n", Json.num (JsonNumber.fromNat b.numBf)), ("map", natsToJson b.mapping)]
+        pure (match halfsetContexts gr gc m with
+          | .ok (b1, b2) => okJson (Json.mkObj [("h1", Json.arr (h.1.map Json.bool).toArray),
+              ("h2", Json.arr (h.2.map Json.bool).toArray), ("c1", ctxJson b1), ("c2", ctxJson b2)])
           | .error e => errJson (errName e))
     | "chunks" =>
         let n ← natField j "n"
